@@ -256,24 +256,44 @@ func c12Atomic(c *Ctx) {
 				return
 			}
 			n++
-			for i, r := range ssau.Referrers(fa) {
-				key := fmt.Sprintf("%s:use#%d.%d", fname(f), n, i)
-				switch u := r.(type) {
-				case ssa.CallInstruction:
-					name := ssau.CalleeName(u)
-					ok := strings.HasPrefix(name, "sync/atomic.") && strings.HasSuffix(name, "Pointer") && len(u.Common().Args) > 0 && u.Common().Args[0] == ssa.Value(fa)
-					if (strings.HasPrefix(name, "(*sync/atomic.Pointer[") || strings.HasPrefix(name, "(*sync/atomic.Value).")) && len(u.Common().Args) > 0 && u.Common().Args[0] == ssa.Value(fa) {
-						ok = true // the field is an atomic box: its methods are the atomic accesses
+			// uses: the uses of an address of the field (the FieldAddr itself, or the result of an unexported helper
+			// that answers that address and is only ever called directly: answering the address is not an access, what
+			// its callers do with it is)
+			var uses func(addr ssa.Value, pre string, depth int)
+			uses = func(addr ssa.Value, pre string, depth int) {
+				for i, r := range ssau.Referrers(addr) {
+					key := fmt.Sprintf("%s.%d", pre, i)
+					switch u := r.(type) {
+					case ssa.CallInstruction:
+						name := ssau.CalleeName(u)
+						ok := strings.HasPrefix(name, "sync/atomic.") && strings.HasSuffix(name, "Pointer") && len(u.Common().Args) > 0 && u.Common().Args[0] == addr
+						if (strings.HasPrefix(name, "(*sync/atomic.Pointer[") || strings.HasPrefix(name, "(*sync/atomic.Value).")) && len(u.Common().Args) > 0 && u.Common().Args[0] == addr {
+							ok = true // the field is an atomic box: its methods are the atomic accesses
+						}
+						c.R.Check(ok, "C12-R3", key, c.pos(r), "address consumed by "+name, "UpdatableSpec.spec is accessed by a non-atomic operation: "+name)
+					case *ssa.Store:
+						fresh := u.Addr == addr && addr == ssa.Value(fa) && localFresh(fa.X)
+						c.R.Check(fresh, "C12-R3", key, c.pos(r), "initialising store into a freshly allocated UpdatableSpec", "plain store to UpdatableSpec.spec")
+					case *ssa.DebugRef:
+					case *ssa.Return:
+						h := u.Parent()
+						if sites, ok := c12DirectCallsOnly(c, h); ok && depth < 3 && len(u.Results) == 1 {
+							for j, site := range sites {
+								if cv, isVal := site.(*ssa.Call); isVal {
+									uses(cv, fmt.Sprintf("%s.%d@%s#%d", pre, i, fname(site.Parent()), j), depth+1)
+								} else {
+									c.R.Violate("C12-R3", key, c.pos(site), "the address of UpdatableSpec.spec is obtained in a go or defer statement")
+								}
+							}
+							continue
+						}
+						c.R.Violate("C12-R3", key, c.pos(r), fmt.Sprintf("UpdatableSpec.spec is accessed by a non-atomic instruction %T", r))
+					default:
+						c.R.Violate("C12-R3", key, c.pos(r), fmt.Sprintf("UpdatableSpec.spec is accessed by a non-atomic instruction %T", r))
 					}
-					c.R.Check(ok, "C12-R3", key, c.pos(r), "address consumed by "+name, "UpdatableSpec.spec is accessed by a non-atomic operation: "+name)
-				case *ssa.Store:
-					fresh := u.Addr == ssa.Value(fa) && localFresh(fa.X)
-					c.R.Check(fresh, "C12-R3", key, c.pos(r), "initialising store into a freshly allocated UpdatableSpec", "plain store to UpdatableSpec.spec")
-				case *ssa.DebugRef:
-				default:
-					c.R.Violate("C12-R3", key, c.pos(r), fmt.Sprintf("UpdatableSpec.spec is accessed by a non-atomic instruction %T", r))
 				}
 			}
+			uses(fa, fmt.Sprintf("%s:use#%d", fname(f), n), 0)
 		})
 	}
 	if n == 0 {
@@ -306,6 +326,40 @@ func c12Atomic(c *Ctx) {
 	if ncopy == 0 {
 		c.R.Discharge("C12-R3", "UpdatableSpec is never copied", "core/specter.go", "no parameter, receiver or load of type core.UpdatableSpec by value in the repository")
 	}
+}
+
+// c12DirectCallsOnly: h is an unexported named function or method whose every use in the repository is a direct
+// call; answers those calls.
+func c12DirectCallsOnly(c *Ctx, h *ssa.Function) ([]ssa.CallInstruction, bool) {
+	if h == nil || h.Parent() != nil || h.Object() == nil || h.Object().Exported() {
+		return nil, false
+	}
+	ok := true
+	var sites []ssa.CallInstruction
+	for _, g := range c.P.AllFuncs {
+		ssau.Instrs(g, func(in ssa.Instruction) {
+			ci, isCall := in.(ssa.CallInstruction)
+			if isCall && ci.Common().StaticCallee() == h && !ci.Common().IsInvoke() {
+				sites = append(sites, ci)
+			}
+			for _, op := range in.Operands(nil) {
+				if op == nil || *op == nil {
+					continue
+				}
+				fv, isFn := (*op).(*ssa.Function)
+				if !isFn {
+					continue
+				}
+				if fv == h && !(isCall && ci.Common().Value == ssa.Value(h)) {
+					ok = false // used as a value
+				}
+				if fv != h && fv.Synthetic != "" && fv.Object() == h.Object() {
+					ok = false // a method value or method expression
+				}
+			}
+		})
+	}
+	return sites, ok && len(sites) > 0
 }
 
 // deepPatternCopy: Branch.Copy stores into Pattern the result of a function that answers with a map or slice it
